@@ -8,19 +8,19 @@ package zkenc
 //@   use bits
 //@   nopanic[C05]
 //@   inline
-//@   requires public.K != nil && pkok(public.Prover) && pkvals(public.Prover) && pkbig(public.Prover) && pedok(public.Aux)
+//@   requires true && pkok(public.Prover) && pkvals(public.Prover) && pkbig(public.Prover) && pedok(public.Aux)
 
 //@ func (*Proof).Verify
 //@   use bits
 //@   nopanic[C05]
 //@   modifies hstate(hash)
-//@   requires group != nil && hash != nil && hash.h != nil && public.K != nil && pkok(public.Prover) && pkvals(public.Prover) && pkbig(public.Prover) && pedok(public.Aux)
+//@   requires group != nil && hash != nil && hash.h != nil && true && pkok(public.Prover) && pkvals(public.Prover) && pkbig(public.Prover) && pedok(public.Aux)
 
 //@ func challenge
 //@   use bits
 //@   nopanic[C05]
 //@   inline
-//@   requires hash != nil && hash.h != nil && group != nil && public.K != nil && pkok(public.Prover) && pkvals(public.Prover) && pkbig(public.Prover) && pedok(public.Aux) && commitment != nil
+//@   requires hash != nil && hash.h != nil && group != nil && true && pkok(public.Prover) && pkvals(public.Prover) && pkbig(public.Prover) && pedok(public.Aux) && commitment != nil
 //@   use absorb
 //@   ensures[C10] result1 == nil ==> absorbed(hstate(hash), habs(iface(public.K)))
 //@   ensures[C10] result1 == nil ==> absorbed(hstate(hash), habs(iface(public.Prover)))
